@@ -638,6 +638,10 @@ static void x_once(const plan_t *p)
         t = (int)(o->a[0] % (uint64_t)ntab);
         m = &mt[t];
         /* a table is not used between init/clear and a successful resize */
+        /* a table is not used for keyed operations between init/clear and a successful resize (it has no buckets);
+         * enumerating or clearing it is fine - there is nothing in it */
+        if (!m->inited && (kind == O_FOREACH || kind == O_FOREACH_CONST || kind == O_CLEAR) && mode_g != 17) { PROBE("enumerate_before_first_resize"); if (m->since_clear < 0) PROBE("enumerate_fresh_from_init"); }
+        else
         if (!m->inited && kind != O_RESIZE && kind != O_SWAP && kind != O_RANGE && kind != O_SCAN) kind = O_RESIZE;
         g_run.step = k; g_run.opkind = kind; g_run.steps++;
         g_cur_prop = prop_of(t, kind); g_cur_ctx = ctx_of(t);
@@ -914,6 +918,7 @@ static void x_once(const plan_t *p)
             break;
         }
         case O_CLEAR: {
+            int had_buckets;
             unsigned libblocks = simheap_live_count(TAG_LIB);
             int j;
             npre = m->nlive; memcpy(pre, m->live, sizeof(pre[0]) * (size_t)npre);
@@ -933,9 +938,10 @@ static void x_once(const plan_t *p)
                 if (nclr != npre) VIOLP("C04", "clear_missed", "clear handed over %d of %d live elements", nclr, npre);
             }
             if (!clear_frees) for (j = 0; j < npre; j++) { memset(pre[j], 0xDD, sizeof *pre[j]); simheap_free(pre[j]); }
+            had_buckets = m->inited;
             m->nlive = 0; m->inited = 0; m->settled = 0; m->since_clear = 0;
             memset(m->hist, 0, sizeof m->hist); m->req.n = 0; m->req.fn = F_NULL; m->builtin = 0;
-            if (simheap_live_count(TAG_LIB) != libblocks - 1)
+            if (simheap_live_count(TAG_LIB) != libblocks - (had_buckets ? 1u : 0u))
                 VIOLP(p->mode == 16 ? "C16" : "C04", "clear_bucket_block", "clear left %u library blocks allocated (was %u): the bucket array must be released exactly once",
                       simheap_live_count(TAG_LIB), libblocks);
             if (cstl_hash_size(&tb[t]) != 0) VIOLP("C04", "clear_size", "size is %zu after clear", cstl_hash_size(&tb[t]));
@@ -1074,9 +1080,16 @@ static void x_gen(prng_t *r, int mode, plan_t *p)
     p->cfg[CF_RPOLICY] = prng_below(r, 3);
     p->cfg[CF_TABSEED] = prng_next(r);
 
-    /* every table starts with a resize */
+    /* every table starts with a resize - in one run of eight after having been enumerated or cleared as it came from
+     * cstl_hash_init() (on junk-filled memory): a freshly initialised table is empty, and says so */
     for (i = 0; i < nt; i++) {
-        op_t *o = plan_add(p, O_RESIZE);
+        op_t *o;
+        if (mode != 17 && prng_chance(r, 1, 8)) {
+            unsigned y = (unsigned)prng_below(r, 3);
+            o = plan_add(p, y == 0 ? O_FOREACH_CONST : y == 1 ? O_FOREACH : O_CLEAR);
+            o->a[0] = (uint64_t)i; o->a[1] = prng_below(r, 7); o->a[2] = prng_below(r, 4); o->a[3] = prng_next(r) >> 8;
+        }
+        o = plan_add(p, O_RESIZE);
         cur[i] = 1 + prng_below(r, maxb);
         o->a[0] = (uint64_t)i; o->a[1] = cur[i]; o->a[2] = prng_below(r, NFN); o->a[3] = 0;
     }
